@@ -1,7 +1,9 @@
 --------------------------- MODULE ChannelMapping ---------------------------
 (* C16 - channel-count mapping (core/util/channel_mapping.go) under the      *)
 (* manager's offer protocol (core/reader/replicate_channel_manager.go        *)
-(* startReadChannel :686-751, waitChannel :774-812, forwardChannel :814-838).*)
+(* startReadChannel :686-751, waitChannel :774-812, forwardChannel :814-838; *)
+(* line numbers as anchored in properties.jsonl - /repo commits after        *)
+(* de6ea06 moved these functions up by two lines without changing them).     *)
 (*                                                                           *)
 (* Design part.  The larger side (the source side when the counts are equal) *)
 (* is the KEY side of util.ChannelMapping (GetMapKey), the other one the     *)
